@@ -21,11 +21,12 @@ import (
 // and "Next polled" are legal for a waiting answer, so scheduling cannot cause a false alarm.
 
 type gate struct {
-	mu       sync.Mutex
-	started  chan struct{} // a handler has been entered
-	release  chan bool     // value = report an error
-	calls    []callRec
-	chanMode chan error // for channel-returning shapes: the channel the harness fills
+	mu         sync.Mutex
+	started    chan struct{} // a handler has been entered
+	release    chan bool     // value = report an error
+	calls      []callRec
+	chanMode   chan error // for channel-returning shapes: the channel the harness fills
+	unbuffered bool       // ... which is unbuffered: the harness sends from a goroutine
 }
 
 func newGate() *gate {
@@ -79,8 +80,10 @@ func registerShapes(dr *ysgo.DialogueRunner, g *gate) error {
 	// returns a channel (the bridge calls these synchronously; they must not block)
 	if err := dr.ConvertAndAddCommand("h2", func(s string, b bool) chan error {
 		g.enter("h2", []Val{valOfString(s), {T: "b", B: b}})
-		ch := make(chan error, 1)
+		// an UNBUFFERED channel owned by the handler: completion is a sender blocked on it
+		ch := make(chan error)
 		g.chanMode = ch
+		g.unbuffered = true
 		return ch
 	}); err != nil {
 		return err
@@ -89,6 +92,7 @@ func registerShapes(dr *ysgo.DialogueRunner, g *gate) error {
 		g.enter("h3", []Val{numVal(float64(n))})
 		ch := make(chan error, 1)
 		g.chanMode = ch
+		g.unbuffered = false
 		return ch
 	}); err != nil {
 		return err
@@ -177,7 +181,6 @@ func genCmdRaceCase(rnd *rand.Rand, id int) *Case {
 	return c
 }
 
-
 func nextWithWatchdog(h *host, choice int, limit time.Duration) (obs stepObs, blocked bool) {
 	done := make(chan stepObs, 1)
 	go func() { done <- h.next(choice) }()
@@ -232,10 +235,14 @@ func driveCmdRace(ci int, c *Case, rnd *rand.Rand) []recEvent {
 		if pending && kind == kHandler && !released && (polls >= 2 || rnd.Intn(2) == 0) {
 			releasedErr = rnd.Intn(4) == 0
 			if g.chanMode != nil {
+				var e error
 				if releasedErr {
-					g.chanMode <- errGate
+					e = errGate
+				}
+				if g.unbuffered {
+					go func(ch chan error) { ch <- e }(g.chanMode)
 				} else {
-					g.chanMode <- nil
+					g.chanMode <- e
 				}
 				g.chanMode = nil
 			} else {
